@@ -25,8 +25,7 @@ Reused models of dependency functions (owned by C06, `Model/Xml.lean`): `scan` =
 `escapeAttrVal`, `escapeCDATAVal`; `Verif.Model.DataURI.mediatype` = `minify.Mediatype` (C18).
 Hash comparisons (`t.Hash == Svg` …) are comparisons of names: `ToHash` is a perfect hash with verification.
 
-Not modelled (see docs/C05B.md): the in-place corruption of attribute `Data` inside `foreignObject` content
-(known finding K-C05B-1: the model prints the uncorrupted bytes), `sub` outputs longer than their input inside
+Not modelled (see docs/C05B.md): `sub` outputs longer than their input inside
 CDATA (the real code appends into the lexer buffer), errors of `sub`, lexer errors other than EOF.
 -/
 namespace Verif.Model.SvgDoc
@@ -192,12 +191,19 @@ def cssMime : List Char := ['t', 'e', 'x', 't', '/', 'c', 's', 's']
 def prefixOf (n : List Char) : Option (List Char) :=
   if n.contains ':' then some (n.takeWhile (· != ':')) else none
 
-/-- `isNameAttr`: values that are identifiers / references, never lengths -/
-def isNameAttr (n : List Char) : Bool :=
-  n == ['h', 'r', 'e', 'f'] || n == ['f', 'o', 'n', 't', '-', 'f', 'a', 'm', 'i', 'l', 'y'] || n == ['i', 'd'] || n == ['c', 'l', 'a', 's', 's'] || n.contains ':'
+/-- `textAttrs`: text-valued attributes -/
+def textAttrs : List (List Char) :=
+  [['u', 'n', 'i', 'c', 'o', 'd', 'e'], ['g', 'l', 'y', 'p', 'h', '-', 'n', 'a', 'm', 'e'], ['r', 'e', 's', 'u', 'l', 't'],
+   ['i', 'n'], ['i', 'n', '2'], ['n', 'a', 'm', 'e'],
+   ['s', 'y', 's', 't', 'e', 'm', 'L', 'a', 'n', 'g', 'u', 'a', 'g', 'e'], ['t', 'i', 't', 'l', 'e']]
 
-/-- the default-valued attributes that are dropped (`val` after the dimension rewrite) -/
-def isDefaultAttr (o : SvgOpts) (tag n val : List Char) : Bool :=
+/-- `isNameAttr`: values that are identifiers / references / text, never lengths -/
+def isNameAttr (n : List Char) : Bool :=
+  n == ['h', 'r', 'e', 'f'] || n == ['f', 'o', 'n', 't', '-', 'f', 'a', 'm', 'i', 'l', 'y'] || n == ['i', 'd'] ||
+  n == ['c', 'l', 'a', 's', 's'] || n.contains ':' || textAttrs.contains n
+
+/-- the default-valued attributes that are dropped (`val` after the dimension rewrite; `mime` = `defaultStyleType`) -/
+def isDefaultAttr (o : SvgOpts) (tag mime n val : List Char) : Bool :=
   (tag == nSvg &&
     ((o.inline && n == ['x', 'm', 'l', 'n', 's']) ||
      (n == ['v', 'e', 'r', 's', 'i', 'o', 'n'] && val == ['1', '.', '1']) ||
@@ -207,7 +213,7 @@ def isDefaultAttr (o : SvgOpts) (tag n val : List Char) : Bool :=
      (n == ['b', 'a', 's', 'e', 'P', 'r', 'o', 'f', 'i', 'l', 'e'] && val == ['n', 'o', 'n', 'e']) ||
      (n == ['c', 'o', 'n', 't', 'e', 'n', 't', 'S', 'c', 'r', 'i', 'p', 't', 'T', 'y', 'p', 'e'] && val == ['a', 'p', 'p', 'l', 'i', 'c', 'a', 't', 'i', 'o', 'n', '/', 'e', 'c', 'm', 'a', 's', 'c', 'r', 'i', 'p', 't']) ||
      (n == ['c', 'o', 'n', 't', 'e', 'n', 't', 'S', 't', 'y', 'l', 'e', 'T', 'y', 'p', 'e'] && val == cssMime))) ||
-  (tag == nStyle && n == ['t', 'y', 'p', 'e'] && val == cssMime)
+  (tag == nStyle && n == ['t', 'y', 'p', 'e'] && val == cssMime && mime == cssMime)
 
 /-- attributes in a namespace other than `xlink:` / `xml:` (and other than `xmlns:xlink`) are dropped -/
 def isForeignAttr (n : List Char) : Bool :=
@@ -255,7 +261,7 @@ def attrVal1 (num : List Char → List Char) (n : List Char) (v : Option (List C
 
 /-- the rest of the `AttributeToken` branch for the value `val1` -/
 def attrEmit (num : List Char → List Char) (o : SvgOpts) (st : St) (n val1 : List Char) : List PTok × List Char :=
-  if isDefaultAttr o st.tag n val1 then ([], st.mime)
+  if isDefaultAttr o st.tag st.mime n val1 then ([], st.mime)
   else if isForeignAttr n then ([], st.mime)
   else if st.tag == nSvg && n == ['c', 'o', 'n', 't', 'e', 'n', 't', 'S', 't', 'y', 'l', 'e', 'T', 'y', 'p', 'e'] then
     let m := Verif.Model.DataURI.mediatype val1
@@ -328,14 +334,16 @@ def plan (num : List Char → List Char) (o : SvgOpts) : St → Nat → List STo
   | st, 0, t :: r =>
     match t with
     | .comment _ => (if o.keepComments then [PTok.tok t] else []) ++ plan num o st 0 r
-    | .doctype _ tx => (if tx.getLast? == some ']' then [PTok.tok t] else []) ++ plan num o st 0 r
+    | .doctype _ tx => (if (trimWs tx).getLast? == some ']' then [PTok.tok t] else []) ++ plan num o st 0 r
     | .text d =>
-      let d1 := trimWs (replWsEnt XmlTables.entities [] d)
+      let d1 := trimWs (replWsEnt XmlTables.entities XmlTables.textRev d)
       (if st.tag == nStyle && !d1.isEmpty then PTok.styleText st.mime d1 else PTok.tok (.text d1)) ::
         plan num o st 0 r
     | .cdata d tx =>
       (if st.tag == nStyle then PTok.styleCData st.mime d tx else PTok.tok (cdataOut d tx)) :: plan num o st 0 r
-    | .startTagPI _ => plan num o st (piLen r) r
+    | .startTagPI n =>
+      if n == ['x', 'm', 'l'] then plan num o st (piLen r) r
+      else PTok.tok t :: ((r.take (piLen r)).map PTok.tok ++ plan num o st (piLen r) r)
     | .startTagClosePI => plan num o st 0 r
     | .startTag n =>
       if skipStart n r then plan num o { st with tag := n } (skipLen 0 r) r
@@ -344,13 +352,13 @@ def plan (num : List Char → List Char) (o : SvgOpts) : St → Nat → List STo
       let a := attrStep num o st n v
       a.1 ++ plan num o { st with mime := a.2 } 0 r
     | .startTagClose =>
-      let c := collapseSkip r
-      let k := c.getD 0
-      let first := PTok.tok (if c.isSome then .startTagCloseVoid else .startTagClose)
-      if st.tag == nForeignObject then
-        let p := printLen 0 false (r.drop k)
-        first :: (((r.drop k).take p).map PTok.tok ++ plan num o st (k + p) r)
-      else first :: plan num o st k r
+      match collapseSkip r with
+      | some k => PTok.tok .startTagCloseVoid :: plan num o { st with tag := [] } k r
+      | none =>
+        if st.tag == nForeignObject then
+          let p := printLen 0 false r
+          PTok.tok .startTagClose :: ((r.take p).map PTok.tok ++ plan num o st p r)
+        else PTok.tok .startTagClose :: plan num o st 0 r
     | .startTagCloseVoid => PTok.tok t :: plan num o { st with tag := [] } 0 r
     | .endTag d n => PTok.tok (.endTag (endData d n) (endName n)) :: plan num o { st with tag := [] } 0 r
 
@@ -392,7 +400,7 @@ def requests (num : List Char → List Char) (o : SvgOpts) (ts : List STok) : Li
 
 /-! ## modelled domain -/
 
-/-- K-C05B-1 trigger on one attribute token: `buffer.go` rewrites the value in place, which corrupts `Data` -/
+/-- former K-C05B-1 trigger on one attribute token (`buffer.go` rewrote the value in place, corrupting `Data`; fixed in /repo 3169ca3) -/
 def attrRewritten : STok → Bool
   | .attr _ _ (some (q :: r)) =>
     !r.isEmpty && (q == '"' || q == '\'') && replWsEnt XmlTables.entities XmlTables.attrRev r.dropLast != r.dropLast
@@ -407,11 +415,13 @@ def printed : List Char → Nat → List STok → List STok
     | .startTagPI _ => printed tag (piLen r) r
     | .startTag n => if skipStart n r then printed n (skipLen 0 r) r else printed n 0 r
     | .startTagClose =>
-      let k := (collapseSkip r).getD 0
-      if tag == nForeignObject then
-        let p := printLen 0 false (r.drop k)
-        (r.drop k).take p ++ printed tag (k + p) r
-      else printed tag k r
+      match collapseSkip r with
+      | some k => printed [] k r
+      | none =>
+        if tag == nForeignObject then
+          let p := printLen 0 false r
+          r.take p ++ printed tag p r
+        else printed tag 0 r
     | .startTagCloseVoid => printed [] 0 r
     | .endTag _ _ => printed [] 0 r
     | _ => printed tag 0 r
